@@ -5,6 +5,7 @@
 package simhook
 
 import (
+	"context"
 	"fmt"
 	"io"
 	"os"
@@ -24,6 +25,26 @@ var WrapFileFn func(path string, f *os.File) io.Reader
 
 func Yield(site string, id int64) {
 	if f := YieldFn; f != nil {
+		f(site, id)
+	}
+}
+
+type tagKey struct{}
+
+// TagContext attaches a source tag (e.g. the file path) to ctx; YieldCtx reports
+// it, so that the simulator can tell apart goroutines working for different sources.
+func TagContext(ctx context.Context, tag string) context.Context {
+	if YieldFn == nil {
+		return ctx
+	}
+	return context.WithValue(ctx, tagKey{}, tag)
+}
+
+func YieldCtx(ctx context.Context, site string, id int64) {
+	if f := YieldFn; f != nil {
+		if tag, ok := ctx.Value(tagKey{}).(string); ok {
+			site = site + ":" + tag
+		}
 		f(site, id)
 	}
 }
